@@ -18,7 +18,12 @@ import (
 	"math"
 	"strconv"
 	"strings"
+	"time"
 
+	"google.golang.org/grpc"
+	"google.golang.org/grpc/codes"
+	"google.golang.org/grpc/internal/verifkit/e2elife"
+	"google.golang.org/grpc/metadata"
 	"pgregory.net/rapid"
 )
 
@@ -447,4 +452,105 @@ func nonRetryableCode(rt *rapid.T, r *retryPlan) int {
 		}
 	}
 	return rapid.SampledFrom(pool).Draw(rt, "nrcode")
+}
+
+// ---------------------------------------------------------------------------
+// executor helpers
+
+// installScript makes the handlers of the RPC under test follow the plan's
+// per-attempt script (attempt number = entry order of the handlers with id
+// "rut"). stop ends the script goroutines at teardown.
+func installScript(hs *e2elife.Handlers, r *retryPlan, stop <-chan struct{}) {
+	n := 0
+	hs.OnEnter = func(c *e2elife.HCall) { // called with the registry lock held
+		if c.ID != "rut" {
+			return
+		}
+		sp := r.script(n)
+		n++
+		if sp.Kind == "block" {
+			return
+		}
+		go func() {
+			if sp.Hold > 0 {
+				t := time.NewTimer(time.Duration(sp.Hold))
+				select {
+				case <-t.C:
+				case <-stop:
+					t.Stop()
+					return
+				}
+			}
+			switch sp.Kind {
+			case "fail":
+				if sp.Pushback != "" {
+					_ = grpc.SetTrailer(c.Ctx, metadata.Pairs("grpc-retry-pushback-ms", sp.Pushback))
+				}
+				hs.Do(c, e2elife.Cmd{Kind: e2elife.CmdFinish, Code: codes.Code(sp.Code), Msg: "scripted failure"})
+			case "hdr_fail":
+				hs.Do(c, e2elife.Cmd{Kind: e2elife.CmdHeader})
+				hs.Do(c, e2elife.Cmd{Kind: e2elife.CmdFinish, Code: codes.Code(sp.Code), Msg: "scripted failure after headers"})
+			case "hdr_block":
+				hs.Do(c, e2elife.Cmd{Kind: e2elife.CmdHeader})
+			}
+		}()
+	}
+}
+
+// rutState returns the number of handlers the RPC under test has reached and
+// whether the latest one has returned.
+func rutState(hs *e2elife.Handlers) (int, bool) {
+	hs.Lock()
+	defer hs.Unlock()
+	n, exited := 0, false
+	for _, h := range hs.Calls {
+		if h.ID == "rut" {
+			n++
+			exited = h.Exited
+		}
+	}
+	return n, exited
+}
+
+func retryClasses(p plan, m []rtAttempt, ph rtPhase) []string {
+	cl := []string{"retry_policy"}
+	if p.Retry.Unary {
+		cl = append(cl, "retry_shape_unary")
+	} else {
+		cl = append(cl, "retry_shape_stream")
+	}
+	if p.Retry.ThrottleMax > 0 {
+		cl = append(cl, "retry_throttling_configured")
+	}
+	a := m[ph.idx]
+	switch ph.kind {
+	case "backoff":
+		cl = append(cl, "blocked_in_retry_backoff_at_E", fmt.Sprintf("backoff_after_attempt_%d", ph.idx+1))
+		switch {
+		case a.pushback && a.blo >= inf:
+			cl = append(cl, "backoff_is_pushback_saturating")
+		case a.pushback:
+			cl = append(cl, "backoff_is_pushback")
+		default:
+			cl = append(cl, "backoff_is_exponential_jitter")
+		}
+		if a.thi > a.tlo {
+			cl = append(cl, "backoff_after_jittered_history")
+		}
+	case "attempt":
+		if ph.idx >= 1 {
+			cl = append(cl, "deadline_during_later_attempt", fmt.Sprintf("later_attempt_%d", ph.idx+1))
+		} else {
+			cl = append(cl, "deadline_during_first_attempt_with_retry_policy")
+		}
+		if a.next != "park" {
+			cl = append(cl, "attempt_would_end_after_E")
+		}
+		if endOf(p) == a.thi {
+			cl = append(cl, "E_ties_with_attempt_start")
+		}
+	case "over":
+		cl = append(cl, "rpc_over_before_E", "over_"+a.reason)
+	}
+	return cl
 }
